@@ -119,7 +119,10 @@ CLAIMED["C14"] = dict(
          "time at which the real exchange() returns TimedOut with the model fed with the logged transfer times. Establishment timeout: "
          "establishment_timeout_reported / _in_time_connected / _destination_independent about the request-path model, tied by suite c14est "
          "(scripted connector completing before / at / after the timeout or never, literal and host-name destinations, HTTP/1.1 and "
-         "HTTP/2; response and drop of the attempt). TLS-handshake timeout: observed on the live listener (suite c14live, wall clock).",
+         "HTTP/2; response and drop of the attempt). TLS-handshake timeout and the reverse-proxy session timer: observed on the live listener "
+         "(suite c14live, wall clock). QUIC connection timers: closest_not_after_any_deadline, tick_recomputes, tick_handles_expired, "
+         "wake_up_makes_progress about the multiplexer's deadline bookkeeping (TT/Model/QuicTimers.lean), tied by replaying the operations "
+         "the real multiplexer performed under live HTTP/3 sessions (suite c14qt).",
     note="Trusted: Lean kernel, harness/door, tokio's paused clock and timer wheel; with a real clock timers fire late by scheduling "
          "latency (not modelled). Release of sockets/tasks on timeout = drop of the futures (Rust ownership), observed only as "
          "'no call after the exchange ended' in the logs.",
